@@ -59,3 +59,23 @@ add("C04", "model_checking",
     "the depth where it was protected); StateVector objects are not in the alphabet; histories "
     "beyond the completed depth are not explored (depth and caps reported in the evidence).",
     "DESIGN.md §3 C04")
+add("C05", "model_checking",
+    "exhaustive unit-pair x accessor product against an independent table; explicit-state search "
+    "over units-context histories with library calls; exception injected at every library "
+    "function entry inside each call",
+    "G: every ordered pair of the 11 supported energy units x 14 units-managed accessors "
+    "(Hamiltonian, Molecule init/set, Mode init/set, SubMode, aggregate coupling and coupling "
+    "matrix, FrequencyAxis start/step/data, correlation-function and spectral-density "
+    "reorganisation energy, convert/in_current_units) x value alphabet, compared with a table "
+    "recomputed from CODATA (1e-6) and with exact identities (round trip, transitivity over a "
+    "third unit, stored value independent of the supplying context; 1e-12). H: BFS over "
+    "enter(energy 1/cm|eV|nm, length nm)/exit/exit-by-exception/exception-through-all/call(f) for a "
+    "30-entry menu of public builder/calculator calls; after every transition the active units "
+    "and the context-depth bookkeeping are compared with the model's stack. F: every menu call "
+    "inside energy_units(u) with an exception injected at every library function entry reached by "
+    "that call (profile hook; entries during a context manager's own __exit__ excluded), units "
+    "compared before/after.",
+    "Fault points beyond the per-call bound (400 quick / 6000 thorough) are not enumerated (cap "
+    "reported); temperature/time/dipole units have no context manager; wavelength of zero energy "
+    "is excluded.",
+    "DESIGN.md §3 C05")
